@@ -10,11 +10,10 @@ LEVEL_TEXT = ('Partial. Coq theorems over R, for arbitrary oracles f, f\', about
               'ScalarRootFind.py on every run: the Newton in-range product test is false exactly when the Newton iterate lies in the closed '
               'bracket (and how the body uses it); bracket invariant f(xl) < 0 <= f(xh) with every iterate and the result inside '
               '[min,max] of the bracket for any guess and either orientation; a root of a continuous f lies in the final bracket (IVT); '
-              'result contract (fuel max_iters suffices, non-NaN <=> converged, NaN without sign change and end-point root, end-point roots '
-              'returned, residual = f(result), why a run reports convergence); bisection halves the bracket; tangent solve and scalar '
+              'result contract (fuel max_iters suffices, non-NaN <=> converged, NaN without sign change and without an end point meeting r_tol -- whatever f does with NaN --, '
+              'end points / clipped guess meeting r_tol returned untouched, an iterate with F = 0 stops the iteration (no 0/0), residual = f(result), why a run reports convergence); bisection halves the bracket; tangent solve and scalar '
               'implicit-function identity (Coquelicot). The clause "sign change => a root within tolerance is returned" is REFUTED for '
-              'the faithful model in exact rational arithmetic (iteration cap; 0/0 at a root with zero slope) and reproduced on the code '
-              '(known findings). Binary64 behaviour and the prologue/epilogue are tied by correspondence (bit-exact against eager rtsafe_).')
+              'the faithful model in exact rational arithmetic (iteration cap) and reproduced on the code (known finding F7, open by design; F7b/F7c/F7d fixed). Binary64 behaviour and the prologue/epilogue are tied by correspondence (bit-exact against eager rtsafe_).')
 TECHNIQUE = 'Coq proof (Reals + Coquelicot) over a state machine built from kernels regenerated from the Python AST; vm_compute/PrimFloat correspondence'
 GEN = ['ScalarRootFind']
 TARGETS = ['proofs/L_C17.vo', 'model/M_C17.vo']
@@ -24,10 +23,9 @@ TRUSTED = ['Coq 8.16.1 kernel + vm_compute (no native_compute)',
            'max_iters and the oracle f_and_fprime become parameters)',
            'hand-written prologue/epilogue/while of model/M_C17.v, tied by the correspondence: model at binary64 vs rtsafe_ run eagerly '
            '(discrete outputs exact, floats within 4 ulp) and vs find_root under jit+vmap (tolerance, near-tie runs skipped)',
-           'NaN is modelled as None: not-bracketed start, 0/0 in the Newton branch, not converged at the cap',
+           'NaN is modelled as None: not-bracketed start (final mask), 0/0 in the Newton branch (unreachable for r_tol >= 0), not converged at the cap',
            'jax.lax.custom_root applies the tangent solve to the linearised residual; jax.grad of primitives is the derivative']
-ASSUMPTIONS = ['exact real arithmetic in theorems (no overflow/underflow; the sign-change test fl*fh < 0 can underflow in binary64: finding F7d)',
-               'f propagates NaN (a NaN-insensitive f lets a not-bracketed run return a number: finding F7c)',
+ASSUMPTIONS = ['exact real arithmetic in theorems (no overflow/underflow; over R the sign test sign(fl)*sign(fh) < 0 is the product test; binary64 behaviour for residual magnitudes 1e-200..1e-300 is covered by the correspondence streams)',
                'f and f\' are total real functions; continuity of f only where stated (IVT); C17_ift assumes the root map is differentiable']
 RULE = ('inputs: seeded families (polynomials with 1-3 roots incl. multiple roots, sign(x-c)|x-c|^(1/2^k) steep power laws, rational sigmoid), '
         'brackets of both orientations and widths 1e-3..1e6, guesses inside/outside/at end points, settings max_iters in {5,20,50,100}, '
@@ -84,7 +82,10 @@ def _families():
         w = 1.0 + jnp.abs(u)
         return 1.0 / (w * w)
 
-    fams = {'poly': (poly_val, poly_der), 'rat': (rat_val, rat_der)}
+    # a polynomial that does NOT propagate nan (returns 1 with slope 0 at nan): the not-bracketed marker x0 = nan is invisible to it
+    polyq_val = lambda x, P: jnp.where(x != x, 1.0, poly_val(jnp.where(x != x, 0.0, x), P))
+    polyq_der = lambda x, P: jnp.where(x != x, 0.0, poly_der(jnp.where(x != x, 0.0, x), P))
+    fams = {'poly': (poly_val, poly_der), 'rat': (rat_val, rat_der), 'polyq': (polyq_val, polyq_der)}
     for k in (1, 2, 3):
         fams['root%d' % k] = mk_root(k)
     out = {}
@@ -106,7 +107,7 @@ def _families():
 
 def coq_fam(kind, P):
     cf = C.cf
-    if kind == 'poly':
+    if kind in ('poly', 'polyq'):
         return '(FPoly %s %s)' % (C.clist([cf(a) for a in P[:PAD]]), C.clist([cf(a) for a in P[PAD:2 * PAD - 1]]))
     if kind.startswith('root'):
         k = int(kind[4:])
@@ -116,7 +117,7 @@ def coq_fam(kind, P):
 
 def py_val(kind, P, x):
     """plain python evaluation (same operation order; used for the sign-change classification and the residual clause)"""
-    if kind == 'poly':
+    if kind in ('poly', 'polyq'):
         acc = P[0]
         for k in range(1, PAD):
             acc = acc * x + P[k]
@@ -133,7 +134,7 @@ def py_val(kind, P, x):
 
 
 def f_scale(kind, P, x):
-    if kind == 'poly':
+    if kind in ('poly', 'polyq'):
         return sum(abs(P[k]) * abs(x) ** (PAD - 1 - k) for k in range(PAD)) + 1e-300
     if kind.startswith('root'):
         r = abs(x - P[0])
@@ -235,6 +236,32 @@ def gen_cases(ctx):
             b0, b1 = b1, b0
         x0 = c if r.random() < 0.6 else c + r.choice([0.25, -0.5, 0.3])
         cases.append(dict(kind='poly', P=P, x0=x0, b0=b0, b1=b1, mi=50, xt=1e-13, rt=0.0, stream='multiple-root'))
+    # residual magnitudes 1e-200 .. 1e-300: the product fl*fh underflows, the sign change must be detected from the signs
+    for _ in range(ctx.n(14, 90)):
+        sc = 10.0 ** (-r.uniform(200, 300))
+        nr = r.choice([1, 1, 3])
+        roots = [r.uniform(-3, 3) for _ in range(nr)]
+        P = [sc * a for a in poly_from_roots(roots, r.choice([1.0, -1.0]) * r.uniform(0.5, 2))]
+        centre = r.choice(roots)
+        w = 10.0 ** r.uniform(-2, 1)
+        b0, b1 = centre - w * r.uniform(0.05, 1), centre + w * r.uniform(0.05, 1)
+        if r.random() < 0.2:
+            sh = w * r.uniform(1, 3) * r.choice([-1, 1])
+            b0, b1 = b0 + sh, b1 + sh
+        if r.random() < 0.4:
+            b0, b1 = b1, b0
+        cases.append(dict(kind='poly', P=P, x0=guess(b0, b1), b0=b0, b1=b1, mi=r.choice([50, 100]), xt=r.choice([1e-13, 1e-10]), rt=r.choice([0.0, 0.0, sc * 1e-9]),
+                          stream='tiny-residual'))
+    # a function that does not propagate nan: without a sign change the result must still be nan
+    for _ in range(ctx.n(8, 50)):
+        roots = [r.uniform(-3, 3) for _ in range(r.choice([1, 2]))]
+        P = poly_from_roots(roots, r.choice([1.0, -1.0]))
+        lo = max(roots) + r.uniform(0.1, 2) if r.random() < 0.7 else min(roots) - r.uniform(3, 5)
+        b0, b1 = lo, lo + r.uniform(0.1, 2)
+        if r.random() < 0.4:
+            b0, b1 = b1, b0
+        mi, xt, rt = settings()
+        cases.append(dict(kind='polyq', P=P, x0=guess(b0, b1), b0=b0, b1=b1, mi=mi, xt=xt, rt=rt, stream='nan-insensitive'))
     # smooth monotone functions on wide brackets: Newton must be accepted for the run to finish within the cap
     for _ in range(ctx.n(16, 120)):
         t = r.randrange(3)
@@ -282,7 +309,7 @@ def ref_iterations_k(case, cap, k):
     f = lambda x: (float(val(x, P)) + k * 2e-16 * f_scale(case['kind'], case['P'], x), float(der(x, P)))
     b0, b1 = case['b0'], case['b1']
     fl, fh = f(b0)[0], f(b1)[0]
-    if not fl * fh < 0:
+    if not ((fl < 0 < fh) or (fh < 0 < fl)):
         return None
     xl, xh = (b0, b1) if fl < 0 else (b1, b0)
     x = min(max(case['x0'], b0), b1)
@@ -310,7 +337,7 @@ def ref_iterations_k(case, cap, k):
             xl = x
         else:
             xh = x
-        if cv or abs(dx) < case['xt'] or abs(F) < case['rt']:
+        if cv or abs(dx) < case['xt'] or abs(F) <= case['rt']:
             return i
     return None
 
@@ -412,8 +439,9 @@ def classify(case):
     fh = py_val(case['kind'], case['P'], case['b1'])
     sl, sh = f_scale(case['kind'], case['P'], case['b0']), f_scale(case['kind'], case['P'], case['b1'])
     exact = case['stream'] in ('endpoint', 'multiple-root')
-    fragile = (not exact) and (abs(fl) < 1e-11 * sl or abs(fh) < 1e-11 * sh)        # sign of an end value could depend on fusion
-    fragile = fragile or (fl != 0 and fh != 0 and abs(fl) * abs(fh) < 1e-290)          # product underflow: finding F7d, not generated
+    rt = case['rt']
+    # the sign of an end value, or its position relative to r_tol, could depend on multiply-add fusion
+    fragile = (not exact) and (abs(abs(fl) - rt) < 1e-11 * sl or abs(abs(fh) - rt) < 1e-11 * sh)
     return fl, fh, fragile
 
 
@@ -431,17 +459,23 @@ def concl(case, out, tag):
     if fragile:
         return bad
     lo, hi = min(case['b0'], case['b1']), max(case['b0'], case['b1'])
-    bracketed = fl * fh < 0
-    if fh == 0:
+    rt = case['rt']
+    bracketed = (fl < 0 < fh) or (fh < 0 < fl)          # by signs (C17_sign_test_is_product_test: the product test over R)
+    xc = min(max(case['x0'], case['b0']), case['b1'])   # np.clip
+    fc = py_val(case['kind'], case['P'], xc) if xc == xc else math.nan
+    if abs(fh) <= rt:
         if not (x == case['b1'] and it == 0 and cv):
-            bad.append(('endpoint_root', 'f(b1)=0 but returned x=%r after %d iterations' % (x, it), None))
-    elif fl == 0:
+            bad.append(('endpoint_root', '|f(b1)|=%r <= r_tol but returned x=%r after %d iterations' % (abs(fh), x, it), None))
+    elif abs(fl) <= rt:
         if not (x == case['b0'] and it == 0 and cv):
-            bad.append(('endpoint_root', 'f(b0)=0 but returned x=%r after %d iterations' % (x, it), None))
+            bad.append(('endpoint_root', '|f(b0)|=%r <= r_tol but returned x=%r after %d iterations' % (abs(fl), x, it), None))
     elif not bracketed:
         if not nan or cv:
             bad.append(('no_sign_change_nan', 'no sign change (f(b0)=%r, f(b1)=%r) but x=%r converged=%r' % (fl, fh, x, cv), None))
     else:
+        if abs(fc) <= rt and abs(abs(fc) - rt) >= 1e-11 * f_scale(case['kind'], case['P'], xc) * (rt > 0):
+            if not (x == xc and it == 0 and cv):
+                bad.append(('guess_is_root', '|f(clipped guess %r)|=%r <= r_tol but returned x=%r after %d iterations' % (xc, abs(fc), x, it), None))
         if nan:
             if it == case['mi'] and rs == rs and dx == dx and not cv and case['mi'] > 0:
                 sig = 'cap'
@@ -456,7 +490,7 @@ def concl(case, out, tag):
                 bad.append(('result_in_bracket', 'x=%r outside [%r, %r]' % (x, lo, hi), None))
     if not nan and cv and it > 0:
         moved = abs(dx) <= math.ulp(x) if x != 0 else dx == 0
-        if not (abs(dx) < case['xt'] or rs < case['rt'] or moved):
+        if not (abs(dx) < case['xt'] or rs <= case['rt'] * (1 + 1e-9) or moved):
             bad.append(('converged_reason', 'converged with |dx|=%r >= x_tol=%r, |F|=%r >= r_tol=%r and the iterate moved' % (dx, case['xt'], rs, case['rt']), None))
     if not nan:
         fx = abs(py_val(case['kind'], case['P'], x))
@@ -566,7 +600,7 @@ def correspondence(ctx, model_ok):
         hist[h] = hist.get(h, 0) + 1
     ctx.count('distinct_nontrivial', len(distinct))
     ctx.cov['outcomes'] = hist
-    ctx.cov['streams'] = {s: sum(1 for c in cases if c['stream'] == s) for s in ('random', 'endpoint', 'multiple-root', 'wide-monotone')}
+    ctx.cov['streams'] = {s: sum(1 for c in cases if c['stream'] == s) for s in ('random', 'endpoint', 'multiple-root', 'wide-monotone', 'tiny-residual', 'nan-insensitive')}
     # a few direct (un-vmapped) calls of the public API must agree with the batched ones
     r = ctx.rng('single')
     for i in r.sample(range(len(cases)), min(ctx.n(6, 25), len(cases))):
@@ -597,7 +631,7 @@ def correspondence(ctx, model_ok):
     r2 = ctx.rng('eager')
     ne = min(len(cases), ctx.n(70, 450))
     pick = set(r2.sample(range(len(cases)), ne))
-    pick |= {i for i, c in enumerate(cases) if c['stream'] != 'random'}
+    pick |= {i for i, c in enumerate(cases) if c['stream'] in ('endpoint', 'multiple-root', 'tiny-residual', 'nan-insensitive')}
     ex = ['enc_result (let g := %s in rtsafe (feval g) (fdiff g) %s %s %s %d %s %s)'
           % (coq_fam(c['kind'], c['P']), C.cf(c['x0']), C.cf(c['b0']), C.cf(c['b1']), c['mi'], C.cf(c['xt']), C.cf(c['rt'])) for c in cases]
     res = C.coq_eval(IMPORTS, ex, 'C17', shard=150)
@@ -614,7 +648,7 @@ def correspondence(ctx, model_ok):
         o = comp[i]
         fl, fh, fragile = classify(c)
         if not fragile:
-            if o[2] == int(mit) and o[1] == mcv:
+            if (o[2] == int(mit) or (why == 1 and c['kind'] == 'polyq')) and o[1] == mcv:
                 if not C.close(o[0], mx, rtol=1e-9, atol=1e-12):
                     # ill-conditioned (multiple) roots: the two roots may differ while both residuals are at rounding level
                     sc = f_scale(c['kind'], c['P'], mx)
@@ -630,7 +664,7 @@ def correspondence(ctx, model_ok):
         if i in pick:
             e = run_eager(c)
             ctx.count('evaluations')
-            ok = (e[1] == mcv) and (e[2] == int(mit)) and ((e[0] != e[0]) == (mx != mx))
+            ok = (e[1] == mcv) and (e[2] == int(mit) or (why == 1 and c['kind'] == 'polyq')) and ((e[0] != e[0]) == (mx != mx))
             if ok and mx == mx:
                 ok = C.close(e[0], mx, rtol=1e-15, atol=0.0) and C.close(e[3], abs(mF), rtol=1e-15, atol=5e-324) and C.close(e[4], abs(mdx), rtol=1e-15, atol=5e-324)
             if ok and why == 3:
